@@ -122,3 +122,38 @@ CONTRACTS.append(Contract(
 ))
 
 MUTANTS.append(("from_uri: label percent-decoded a second time", T, "            label = label.strip() or None", "            label = unquote(label).strip() or None", "refute", r"_from_parsed_uri\[label"))
+
+
+# ---- old-style "issuer:label" path: the issuer taken from the prefix is compared with the issuer= parameter AS IS (to_uri() writes
+#      the same issuer in both places, also one with leading / trailing blanks), and is handed on unchanged ----
+def _issuer_setup(it, args):
+    _label_setup(it, args)
+    iss, lab = z3.String("issuer text"), z3.String("label text")
+    it.run.assume(z3.And(z3.Not(z3.Contains(iss, z3.StringVal(":"))), z3.Not(z3.Contains(lab, z3.StringVal(":"))), z3.Length(iss) > 0, z3.Length(lab) > 0))
+    it.genv.vars["unquote"] = SStub(lambda i, a, k: SStr(z3.Concat(iss, z3.StringVal(":"), lab), "str"), "unquote", trusted="the decoded path is 'issuer:label'")
+    from pyvc.values import SList as _SL
+    it.genv.vars["parse_qsl"] = SStub(lambda i, a, k: _SL([("issuer", SStr(iss, "str"))]), "parse_qsl", trusted="the query carries issuer=<the same issuer>, as to_uri() writes it")
+    it.run.ghost.update({"iss": iss, "lab": lab})
+    return None
+
+
+def _issuer_post(it, env):
+    g = it.run.ghost
+    got = g["seen"].get("issuer")
+    return z3.BoolVal(False) if got is None else it.to_z3(got) == g["iss"]
+
+
+CONTRACTS.append(Contract(
+    "TOTP._from_parsed_uri[issuer prefix and issuer parameter]", f"{T}::TOTP._from_parsed_uri",
+    params={"cls": Obj(cls=(T, "TOTP"), is_class=True), "result": Obj(fields={"path": Str(), "query": Str()})},
+    setup=_issuer_setup,
+    globals={"new.*": SStub(lambda i, a, k: SObj("TOTP instance", fresh=True), "cls(**kwds)")},
+    requires=[lambda it, env: z3.And(z3.PrefixOf(z3.StringVal("/"), it.to_z3(it.resolve(it.entry["result"]).fields["path"])), z3.Length(it.to_z3(it.resolve(it.entry["result"]).fields["path"])) > 1)],
+    raises={},
+    ensures=[("a URI that names the same issuer in the path prefix and in issuer= is accepted whatever blanks the issuer carries, and that issuer is handed on unchanged", _issuer_post)],
+    replay=__import__("pyvc.replay", fromlist=["py_replay"]).py_replay(
+        "from passlib.totp import TOTP", "t = TOTP(key='GEZDGNBVGY3TQOJQ', issuer=V['issuer'], label='alice'); r = TOTP.from_uri(t.to_uri()).issuer", "exc is None and r == V['issuer']", {"issuer": "Example Org "},
+        search=lambda v: [dict(v, issuer=x) for x in ("Example", " Example", "Example Org ", " Café ", "a b")]),
+    descr="any issuer and label text without ':'",
+))
+MUTANTS.append(("from_uri: issuer prefix stripped, issuer parameter not", T, "                issuer, label = label.split(\":\")\n", "                issuer, label = label.split(\":\")\n                issuer = issuer.strip()\n", "refute", r"issuer prefix"))
